@@ -20,12 +20,28 @@ fn main() {
     };
     core::install_panic_hook();
     if args[2] == "--replay" {
-        let path = args.get(3).expect("replay file");
-        let src = std::fs::read_to_string(path).expect("readable replay file");
-        let j = json::parse(&src).expect("replay file is json");
-        let wl = j.get("workload").and_then(|v| v.as_str()).expect("workload").to_string();
-        let idx = j.get("index").and_then(|v| v.as_u64()).expect("index");
-        let seed = j.get("seed").and_then(|v| v.as_u64()).expect("seed");
+        let bad = |m: &str| -> ! {
+            eprintln!("replay: {}", m);
+            std::process::exit(2)
+        };
+        let path = match args.get(3) {
+            Some(p) => p,
+            None => bad("missing replay file argument"),
+        };
+        let src = match std::fs::read_to_string(path) {
+            Ok(s) => s,
+            Err(e) => bad(&format!("cannot read {}: {}", path, e)),
+        };
+        let j = match json::parse(&src) {
+            Ok(j) => j,
+            Err(e) => bad(&format!("{} is not json: {}", path, e)),
+        };
+        let wl = match j.get("workload").and_then(|v| v.as_str()) {
+            Some(w) => w.to_string(),
+            None => bad("no workload in replay file"),
+        };
+        let idx = j.get("index").and_then(|v| v.as_u64()).unwrap_or_else(|| bad("no index in replay file"));
+        let seed = j.get("seed").and_then(|v| v.as_u64()).unwrap_or_else(|| bad("no seed in replay file"));
         let rec = core::replay_case(prop.as_ref(), &wl, idx, seed);
         println!("replay property={} workload={} index={} seed={}", prop.id(), wl, idx, seed);
         for l in &rec.log {
